@@ -91,11 +91,32 @@ def run(run, replay=None):
                 fails.append(("confirmation-lost", {"kind": "confirmation-lost", "after": "pause"}, o))
         finally:
             srv.stop()
+    # many conversions that are never confirmed pile up between the response and the confirmation (other clients abandon theirs)
+    for pending in ([100, 255, 256, 257, 1000, 5000] if thorough else [255, 300, 1100]):
+        srv = S.Server(bindir, dic, None, workers=4)
+        try:
+            if not srv.wait_listening():
+                continue
+            for i in range(pending - 1):
+                srv.conv(["やまだ", "かか", "ほん"][i % 3])
+            a = srv.conv("くるまで")
+            for i in range(3):
+                srv.conv("やまだ")
+            st, _ = srv.rpc("UpdateFrequency", {"session_id": a[1]["session_id"], "candidate_id": "0"})
+            d = srv.dump()
+            got = sum(n for _, w, n, _ in (d or {"frequencies": []})["frequencies"] if w == "車")
+            o = {"abandoned_conversions_before": pending - 1, "abandoned_conversions_in_between": 3, "acknowledged_confirmations": 1,
+                 "learned_count": got, "live_sessions": d and d.get("sessions")}
+            obs.append(dict(o, clients=1, pairs_per_client=1))
+            if st != "ok" or got != 1:
+                fails.append(("confirmation-lost", {"kind": "confirmation-lost", "after": "abandoned-sessions"}, o))
+        finally:
+            srv.stop()
     for kind, key, w in fails[:6]:
         run.failures.append(cl.Failure("oracle", "server violates C15 (%s): %s" % (kind, json.dumps(w)), witness=w, key=key))
     run.cov.update({"evaluations": sum(o["clients"] * o["pairs_per_client"] for o in obs), "distinct_nontrivial": len(obs),
                     "rule": "per configuration (clients, pairs, delay hooks): every client sends conversion + confirmation back to back; "
                             "the learned count of the confirmed word must equal the number of acknowledged confirmations; then 20 "
-                            "registrations must appear exactly once each. non-trivial = every configuration",
+                            "registrations must appear exactly once each; clock jumps and hundreds of abandoned conversions between a response and its confirmation. non-trivial = every configuration",
                     "samples": obs[:3], "oracle_failures": len(fails)})
     shutil.rmtree(wd, ignore_errors=True)
